@@ -277,9 +277,12 @@ def observe_part(part):
             step=str(r["step"]), alter=int(r["alter"]), octave=int(r["octave"]), pitch=int(r["pitch"]),
             voice=int(r["voice"]), staff=int(r["staff"]), grace=bool(r["is_grace"]),
             arts=sorted(a for a in (o.articulations or []) if a in SUPPORTED_ARTS))
-    meas = sorted((fr(bm(m.start.t)), fr(bm(m.end.t))) for m in part.iter_all(score.Measure))
-    ts = sorted((fr(bm(t.start.t)), int(t.beats), int(t.beat_type)) for t in part.iter_all(score.TimeSignature))
-    ks = sorted((fr(bm(k.start.t)), int(k.fifths), str(k.mode)) for k in part.iter_all(score.KeySignature))
+    def by_pos(rows):
+        rows = sorted(rows, key=lambda r: (float(r[0]),) + tuple(r[1:]))
+        return [(fr(r[0]),) + tuple(r[1:]) for r in rows]
+    meas = by_pos((bm(m.start.t), float(bm(m.end.t))) for m in part.iter_all(score.Measure))
+    ts = by_pos((bm(t.start.t), int(t.beats), int(t.beat_type)) for t in part.iter_all(score.TimeSignature))
+    ks = by_pos((bm(k.start.t), int(k.fifths), str(k.mode)) for k in part.iter_all(score.KeySignature))
     q = sorted(set(int(x) for x in part._quarter_durations))
     return dict(notes=notes, measures=meas, tsigs=ts, ksigs=ks, quarter_durations=q)
 
@@ -318,7 +321,7 @@ def observe_file(path):
     sp = []
     for ln in mf.lines:
         if getattr(ln, "Attribute", None) in ("timeSignature", "keySignature") and hasattr(ln, "Measure"):
-            sp.append(dict(attr=ln.Attribute, value=str(ln.Value), measure=int(ln.Measure), beat=int(ln.Beat),
+            sp.append(dict(attr=ln.Attribute, measure=int(ln.Measure), beat=int(ln.Beat),
                            off=[int(ln.Offset.numerator), int(ln.Offset.denominator)], tib=fr(ln.TimeInBeats)))
     ped = [dict(number=64 if "ustain" in type(ln).__name__ else 67, time=int(ln.Time), value=int(ln.Value))
            for ln in mf.lines if hasattr(ln, "Time") and hasattr(ln, "Value") and not hasattr(ln, "Attribute")]
@@ -523,12 +526,14 @@ def oracle(case, obs):
 
     def fl(rows):
         return [tuple([float(Fraction(r[0]))] + list(r[1:])) for r in rows]
-    om = [(a, float(Fraction(b))) for a, b in O["measures"]]
-    lm = [(a, float(Fraction(b))) for a, b in L["measures"]]
+    om = [(a, float(b)) for a, b in O["measures"]]
+    lm = [(a, float(b)) for a, b in L["measures"]]
     if not (len(om) == len(lm) and all(close(x[0], y[0], rel=0, ab=Fraction(1, 10 ** 6)) and abs(x[1] - y[1]) < 1e-6 for x, y in zip(lm, om))):
         bad.append(("measures", "measures (start,end in beats) loaded %s, written %s" % (fl(lm), fl(om))))
     if not same_pos(L["tsigs"], O["tsigs"]):
         bad.append(("tsigs", "time signatures loaded %s, written %s" % (fl(L["tsigs"]), fl(O["tsigs"]))))
-    if not same_pos(L["ksigs"], O["ksigs"]):
-        bad.append(("ksigs", "key signatures loaded %s, written %s" % (fl(L["ksigs"]), fl(O["ksigs"]))))
+    if not same_pos([k[:1] for k in L["ksigs"]], [k[:1] for k in O["ksigs"]]):
+        bad.append(("ksig_pos", "key signatures loaded at %s, written at %s" % (fl(L["ksigs"]), fl(O["ksigs"]))))
+    elif not same_pos(L["ksigs"], O["ksigs"]):
+        bad.append(("ksig_value", "key signatures loaded %s, written %s" % (fl(L["ksigs"]), fl(O["ksigs"]))))
     return bad
